@@ -166,6 +166,7 @@ static Generator_System mkgs(const Op& o, unsigned n) { Generator_System gs; for
 static Complexity_Class cx(int v) { return v % 3 == 1 ? ANY_COMPLEXITY : v % 3 == 2 ? SIMPLEX_COMPLEXITY : POLYNOMIAL_COMPLEXITY; }
 
 struct Out { std::string exc, obs, rr, rc, plain, wtwin; bool rb; long ri; };
+static bool g_lean = false;   // fault harness: only the call itself, no comparison twins (raw temporaries of the harness)
 static D* rebuilt(const D& x, int style) {
   D c(x); unsigned sn = c.space_dimension(); D* q = 0;
   if (style % 3 == 0) { Constraint_System cs = c.minimized_constraints(); q = new D(sn, UNIVERSE); q->refine_with_constraints(cs); }
@@ -304,6 +305,7 @@ static void exec_op(const Op& o, Slot* S, Slot& d, Slot& s, Out& out) {
         if (d.p->space_dimension() != s.p->space_dimension() || &d == &s) { widen_call(op, d.p, *s.p, cs, tp); ri = tk; }
         else {
           d.p->upper_bound_assign(*s.p);      // z = receiver joined with the argument (the precondition of every widening)
+          if (g_lean) { widen_call(op, d.p, *s.p, cs, tp); ri = tk; return; }
           { Slot t; t.p = new D(*d.p); Constraint_System none; widen_call(plain_of(op), t.p, *s.p, none, 0); out.plain = desc(t); delete t.p; }
           { Slot tz; tz.p = rebuilt(*d.p, o.var); D* ts = rebuilt(*s.p, o.var + 1); unsigned tk2 = tk;
             widen_call(op, tz.p, *ts, cs, tp ? &tk2 : 0); out.wtwin = desc(tz); out.rr = std::string("{\"ok\":true,\"num\":") + std::to_string(tk2) + ",\"den\":1,\"ext\":false,\"pt\":[]}"; delete tz.p; delete ts; }
